@@ -45,7 +45,7 @@ fn parse_both(txt: &str) -> Result<Result<Epoch, HifitimeError>, String> {
     Ok(a)
 }
 
-fn rt_oracle(c: &Rt) -> Verdict {
+pub fn rt_oracle(c: &Rt) -> Verdict {
     let cnt = c.g - greg_offset_ns(c.s);
     let ts = SCALES[c.s];
     let e = Epoch::from_duration(mk(cnt), ts);
@@ -145,7 +145,7 @@ fn gram_text(c: &Gram) -> String {
     s
 }
 
-fn gram_oracle(c: &Gram) -> Verdict {
+pub fn gram_oracle(c: &Gram) -> Verdict {
     let txt = gram_text(c);
     let sc = c.suffix.map(|(s, _)| s).unwrap_or(S_UTC);
     let frac_ns: i128 = if c.frac.is_empty() { 0 } else { format!("{:0<9}", c.frac).parse::<i128>().unwrap() };
@@ -193,7 +193,7 @@ fn num_strategy() -> BS<Num> {
         .boxed()
 }
 
-fn num_oracle(c: &Num) -> Verdict {
+pub fn num_oracle(c: &Num) -> Verdict {
     let x = c.x.v();
     let name = if c.alias { ALIASES[c.s] } else { SCALE_NAMES[c.s] };
     let txt = format!("{} {} {}", ["JD", "MJD", "SEC"][c.form as usize], x, name);
@@ -248,5 +248,6 @@ pub fn subs() -> Vec<Box<dyn DynSub>> {
         sub(Sub { name: "c10.library_text", source: Source::Gen(rt_strategy, 400_000, 15_000_000), oracle: rt_oracle, known: no_known, hang_is_violation: false }),
         sub(Sub { name: "c10.grammar_text", source: Source::Gen(gram_strategy, 400_000, 15_000_000), oracle: gram_oracle, known: no_known, hang_is_violation: false }),
         sub(Sub { name: "c10.numeric_forms", source: Source::Gen(num_strategy, 200_000, 5_000_000), oracle: num_oracle, known: no_known, hang_is_violation: false }),
+        crate::props::fuzzsub::c10_fuzz(),
     ]
 }
